@@ -198,6 +198,9 @@ class C06(Property):
                     out.append(Finding("violation", c,
                                        "the failure message does not carry the conversion/guard text (expected one of %r): %r" %
                                        (c.tags["frags"], text[:200]), related=[b]))
+            elif cls == "HELP" and not c.argv and c.opts.get("fallback_to_usage"):
+                # `fallback_to_usage`: a failure on an EMPTY line prints the usage screen instead -- not a value either
+                dist["usage_instead_of_failure"] = dist.get("usage_instead_of_failure", 0) + 1
             elif cls not in ("STDERR",):
                 out.append(Finding("violation", c, "a present but invalid value produced %s instead of an stderr failure" % cls,
                                    related=[b]))
